@@ -188,6 +188,7 @@ class Evaluator:
         self.repo = linker.repo
         self.inline_depth = inline_depth
         self.len_map: Dict[str, Rat] = {}         # array symbol name -> its length
+        anf.LENGTH_HOOK = self.length_of           # the evaluator in use normalises end-relative positions
         self.length_values: set = set()           # keys of values produced by len(): non-negative integers
         self.array_syms: set = set()
         self.fresh = 0
@@ -210,8 +211,43 @@ class Evaluator:
         self.summary_assumptions: set = set()
         self.gen_registry: Dict[str, Any] = {}
         self.vec_registry: Dict[str, Any] = {}
+        self.fn_registry: Dict[str, Any] = {}         # lambda / nested def key -> (node, defining function, defining env)
+        self._module_consts: Dict[Tuple[str, str], Any] = {}
         self.in_registry: Dict[Any, Any] = {}        # key of an `x in c` atom -> (x value, c value)
         self.comp_registry: Dict[str, Any] = {}      # all(...)/any(...) over a generator: (kind, iter value, element symbol, element guard)
+
+    def module_constant(self, mod: Module, name: str):
+        """Value of a module-level name bound exactly once, at module level, by a plain assignment (a constant table
+        such as `_COST_METHODS = {Metrics.r2: lf.linear_r2_points, ...}`); None when it is anything else."""
+        k = (mod.fullname, name)
+        if k in self._module_consts:
+            return self._module_consts[k]
+        self._module_consts[k] = None
+        stores = [n for n in ast.walk(mod.tree) if isinstance(n, ast.Name) and n.id == name and isinstance(n.ctx, (ast.Store, ast.Del))]
+        tops = [st for st in mod.tree.body if isinstance(st, ast.Assign) and len(st.targets) == 1 and isinstance(st.targets[0], ast.Name)
+                and st.targets[0].id == name]
+        if len(stores) != 1 or len(tops) != 1:
+            return None
+        # never mutated in place anywhere in the module
+        for n in ast.walk(mod.tree):
+            if isinstance(n, ast.Subscript) and isinstance(n.ctx, (ast.Store, ast.Del)) and isinstance(n.value, ast.Name) and n.value.id == name:
+                return None
+            if isinstance(n, ast.Call) and isinstance(n.func, ast.Attribute) and isinstance(n.func.value, ast.Name) and n.func.value.id == name \
+                    and n.func.attr in ("update", "pop", "popitem", "clear", "setdefault", "append", "extend", "insert", "remove", "sort", "reverse"):
+                return None
+        value = tops[0].value
+        if not isinstance(value, (ast.Dict, ast.Tuple, ast.List, ast.Constant, ast.Attribute, ast.Name, ast.BinOp, ast.UnaryOp)):
+            return None
+        fake = next(iter(mod.all_functions), None)
+        if fake is None:
+            return None
+        fr = Frame(self, fake, 0)
+        try:
+            v = fr.expr(value, {})
+        except Unsupported:
+            return None
+        self._module_consts[k] = v
+        return v
 
     def never_none(self, qual: str) -> bool:
         """Return summary of a package function: every path ends in `return <expr>` with <expr> not the
@@ -538,6 +574,11 @@ class Frame:
             if self.havoc_depth == 0:
                 self.continue_envs.append((guard, dict(env)))
             return FALSE
+        if isinstance(st, ast.FunctionDef) and not st.decorator_list:
+            key = f"closure:{self.fi.qualname}.{st.name}"
+            self.ev.fn_registry[key] = (st, self.fi, env)
+            env[st.name] = Obj("lambda", key)          # a nested def is a named lambda with a statement body
+            return guard
         if isinstance(st, (ast.Pass, ast.Import, ast.ImportFrom, ast.FunctionDef, ast.ClassDef, ast.Assert)):
             return guard
         if isinstance(st, ast.Delete):
@@ -735,6 +776,10 @@ class Frame:
                 return Obj("dep", getattr(r.obj, "__name__", repr(r.obj)))
             if r.kind == "module":
                 return Obj("module", r.obj.fullname)
+            if r.kind == "global" and isinstance(r.extra, Module):
+                mc = ev.module_constant(r.extra, e.id)
+                if mc is not None:
+                    return mc
             return ev.symbol(e.id)
         if isinstance(e, ast.Attribute):
             r = self.lk_resolve(e)
@@ -815,7 +860,9 @@ class Frame:
         if isinstance(e, ast.JoinedStr):
             return Obj("str", "<fstring>")
         if isinstance(e, ast.Lambda):
-            return Obj("lambda", norm_text(e))
+            key = "lambda:" + norm_text(e)
+            ev.fn_registry[key] = (e, self.fi, env)
+            return Obj("lambda", key)
         if isinstance(e, (ast.ListComp, ast.GeneratorExp)) and self.ev.summarise_loops and self.havoc_depth == 0:
             from .seqdom import comprehension, NoSummary
             try:
@@ -1034,6 +1081,15 @@ class Frame:
         """Element of an element-wise expression = the expression of the elements."""
         if not arr.is_array():
             return anf.opaque("item", arr, idx, array=False)
+        if idx.is_const() is None:
+            # x[len(x) - k] is x[-k] (before slices are resolved to positions of their base)
+            try:
+                back = idx.sub(self.ev.length_of(arr)).is_const()
+            except Unsupported:
+                back = None
+            if back is not None and back < 0 and back.denominator == 1:
+                idx = Rat.const(back)
+
         ats = arr.atoms()
         if len(ats) == 1 and ats[0].kind == "fn" and ats[0].name.startswith(("call:", "slot:", "dep:")) and arr.equals(Rat.from_atom(ats[0])) \
                 and idx.is_const() is not None and idx.is_const() >= 0:
